@@ -609,7 +609,8 @@ def rule_hierarchical(ctx, m):
         row = hex_.events[apps[0]][2][2][0]
         nm = sts[0][1][2][1] if sts else None          # the node map
         ok = row[0] == 'tuple' and row[1][:3] == (('idx', nm, fa), ('idx', nm, ta), da)
-        want_id = ('bin', '+', ('call', ('var', 'len'), (('attr', ('var', 'self'), 'series'),), ()), ('call', ('var', 'len'), (lk,), ()))
+        from ..canon import canon_expr
+        want_id = canon_expr(('bin', '+', ('call', ('var', 'len'), (('attr', ('var', 'self'), 'series'),), ()), ('call', ('var', 'len'), (lk,), ())))
         nn = [(k_, e) for k_, e in sts if e[2] == ('idx', nm, ta) and e[3] == want_id]
         rt = [(k_, e) for k_, e in sts if e[2] == ('idx', nm, fa) and e[3] == ('none',)]
         ok = ok and len(nn) == 1 and len(rt) == 1 and len(sts) == 2 and all(k_ > apps[0] for k_, e in sts)
@@ -666,7 +667,14 @@ def rule_hierarchical(ctx, m):
             ok = False
     ctx.check(ok, 'R-ITER', file, 'LinkageTree.fit', 'condensed fill', 'the condensed vector must be filled row-major with dists[r, r+1:] at offsets advancing by n - r - 1 (SciPy order)', lf.line)
     pm, sc = _func(m, mod, 'LinkageTree._size_cond')
-    ok = any(s.k == 'return' and fmt(s.value).replace(' ', '') == 'int(((n*(n-1))/2))' for s in sc.body)
+    # n: the argument itself or the local holding int(argument)
+    nn = ('var', sc.args[-1])
+    for t_ in sc.body:
+        if t_.k == 'assign' and t_.target[0] == 'var' and t_.value in (nn, ('call', ('var', 'int'), (nn,), ())):
+            nn = t_.target
+            break
+    want_sz = canon_expr(('bin', '/', ('bin', '*', nn, ('bin', '-', nn, ('num', 1))), ('num', 2)))
+    ok = any(s.k == 'return' and s.value in (want_sz, ('call', ('var', 'int'), (want_sz,), ()), ('bin', '//', want_sz[2], ('num', 2))) for s in sc.body)
     ctx.check(ok, 'R-ITER', file, 'LinkageTree._size_cond', 'condensed length', 'the condensed vector has n(n-1)/2 entries', sc.line)
 
 
